@@ -191,6 +191,96 @@ func c07(r *engine.Report, p *engine.Program) {
 			r.Broken("C01 own-row obligations not generated")
 		}
 	}
+	// O14 nothing a peer sends can make the node stop itself
+	{
+		shut := p.Func("(*netceptor.Netceptor).Shutdown")
+		if shut == nil {
+			r.Broken("Netceptor.Shutdown not found")
+		} else {
+			n := 0
+			if obj, _ := shut.Object().(*types.Func); obj != nil {
+				for _, cs := range p.CallSitesOf(obj) {
+					f := cs.Parent()
+					if engine.IsMock(f) || !cone.Fns[engine.Outermost(f)] && !cone.Fns[f] {
+						continue
+					}
+					n++
+					r.Add("O14-remote-shutdown", engine.FuncName(engine.Outermost(f))+": calls Shutdown on the strength of a peer's message", cs.Pos(), engine.Violated,
+						"Shutdown() is reachable from bytes a backend peer sent: a routing update naming this node's ID with SuspectedDuplicate equal to this node's epoch (which the node discloses in its own updates) and a different UpdateEpoch makes the node cancel its root context — one message from any established peer stops the node for all its other peers")
+				}
+			}
+			if n == 0 {
+				r.Add("O14-remote-shutdown", "Shutdown: callers in the wire cone", shut.Pos(), engine.Discharged, "Shutdown() is not reachable from code that handles peer bytes")
+			}
+		}
+	}
+	// O15 what the relay pushes onto another peer's connection is bounded by the MTU (the TCP
+	// framing carries a 16-bit length, UDP has its datagram limit: an oversized packet accepted
+	// from one peer must not corrupt or reset a well-behaved peer's connection)
+	if fm := p.Func("(*netceptor.Netceptor).forwardMessage"); fm != nil {
+		mtuF := p.Field("netceptor", "Netceptor", "mtu")
+		dataF := p.Field("netceptor", "MessageData", "Data")
+		var sends []ssa.Instruction
+		for _, b := range fm.Blocks {
+			for _, in := range b.Instrs {
+				switch x := in.(type) {
+				case *ssa.Send:
+					sends = append(sends, in)
+				case *ssa.Select:
+					for _, st := range x.States {
+						if st.Dir == types.SendOnly {
+							sends = append(sends, in)
+						}
+					}
+				}
+			}
+		}
+		// edges on which len(md.Data) <= mtu
+		var within []engine.Edge
+		for _, i := range engine.Ifs(fm) {
+			bo, ok := i.Cond.(*ssa.BinOp)
+			if !ok {
+				continue
+			}
+			isLen := func(v ssa.Value) bool {
+				c, isC := engine.Unwrap(v).(*ssa.Call)
+				if !isC {
+					return false
+				}
+				bi, isB := c.Common().Value.(*ssa.Builtin)
+				if !isB || bi.Name() != "len" {
+					return false
+				}
+				f, _ := engine.FieldOfLoad(c.Common().Args[0])
+				return f == dataF
+			}
+			isMTU := func(v ssa.Value) bool { f, _ := engine.FieldOfLoad(v); return f == mtuF }
+			op := bo.Op
+			switch {
+			case isLen(bo.X) && isMTU(bo.Y):
+			case isLen(bo.Y) && isMTU(bo.X):
+				op = flipOp(op)
+			default:
+				continue
+			}
+			switch op {
+			case token.GTR: // len > mtu : false edge is within
+				within = append(within, engine.Edge{From: i.Block(), Succ: 1})
+			case token.LEQ:
+				within = append(within, engine.Edge{From: i.Block(), Succ: 0})
+			}
+		}
+		ok := len(sends) > 0 && len(within) > 0
+		if ok {
+			cut := engine.EdgeSet{}.Add(within...)
+			if engine.Reach(fm, nil, cut, nil, func(in ssa.Instruction) bool { return isOneOf(in, sends) }) != nil {
+				ok = false
+			}
+		}
+		r.Check("O15-relay-bounded", "forwardMessage: only payloads within the MTU are pushed onto a neighbour's connection", fm.Pos(), ok,
+			"the hand-off to the next hop's writer is unreachable once the len(md.Data) <= mtu edges are removed",
+			"the relay forwards packets of any size: a peer on a backend without a size limit (websocket) can send a >65535-byte packet for a node behind a TCP link — the 16-bit length prefix wraps and that well-behaved neighbour's stream is mis-framed from then on (or, behind UDP, its session is torn down by the failed send)")
+	}
 	// O13 the reader side never writes to a websocket
 	wsSingleWriterRule(r, p, "O13-ws-single-writer")
 }
